@@ -7,6 +7,10 @@ import time
 
 sys.path.insert(0, "/verif/tools")
 sys.path.insert(0, "/verif/tools/props")
+import warnings
+warnings.simplefilter('ignore')
+import numpy as _np
+_np.seterr(all='ignore')
 import common  # noqa
 
 ALL = [f"C{i:02d}" for i in range(1, 21)]
